@@ -151,4 +151,3 @@ func verif_contract_Session_Ping6(h *Session, srcAddr Addr, dstAddr Addr, timeou
 	vEnsures(spec_icmptable_ok())
 	return err
 }
-
